@@ -4,7 +4,7 @@
    demands the scancel calls before the flag).  (A resubmission clears the flag; resubmission is
    outside this model.) *)
 From Coq Require Import List ZArith NArith Bool.
-From Jade Require Import Base System SystemMonitors SystemProofs SystemTheorems SystemStatus.
+From Jade Require Import Base System SystemMonitors SystemProofs SystemTheorems SystemStatus SystemProgress SystemCancelDone.
 From Jade.Props Require Import SysExamples.
 Import ListNotations.
 Open Scope N_scope.
@@ -38,3 +38,19 @@ Definition ex_tr_cancel : list event :=
                       ECheckComplete 8 true; EMarkerRemove 8; ESummary 8 [rw 0 0] [1; 2]; EMarkComplete 8; EDemote 8].
 Example c14_nonvacuous : accepted ex_sc ex_tr_cancel = true /\ existsb is_mark_canceled ex_tr_cancel = true.
 Proof. vm_compute. auto. Qed.
+
+(* a canceled submission still runs to completion: from any quiescent state after the flag was set (no batch queued
+   or running, nobody submitter) every completion check that a submitter round reaches returns "complete".
+   PARTIAL in the same sense as c05_progress: that a started round reaches its check is not proved (the acceptor has
+   no scheduling); on the implementation the oracle canceled-submission-never-completes decides it. *)
+Theorem c14_canceled_submission_completes_partial : forall sc tr0 q tr1 tr2 p b tr3 s0 s',
+  run sc (tr0 ++ EMarkCanceled q :: tr1) = Some s0 -> quiescent s0 ->
+  run sc ((tr0 ++ EMarkCanceled q :: tr1) ++ tr2 ++ ECheckComplete p b :: tr3) = Some s' ->
+  b = true.
+Proof. exact canceled_submission_completes. Qed.
+Print Assumptions c14_canceled_submission_completes_partial.
+
+Example c14_completes_nonvacuous :
+  exists s0, run ex_sc (firstn 17 ex_tr_cancel) = Some s0 /\ quiescent s0 /\ nth 16 ex_tr_cancel (EDemote 0) = EBatchEnd 100
+             /\ nth 14 ex_tr_cancel (EDemote 0) = EMarkCanceled 7 /\ nth 23 ex_tr_cancel (EDemote 0) = ECheckComplete 8 true.
+Proof. vm_compute. eexists. repeat split; reflexivity. Qed.
